@@ -239,6 +239,8 @@ class FilterOracles(Oracles):
 def run_filter(F, body, cfg):
     h = FilterOracles([], cfg)
     it = Interp(F, False, h)
+    if cfg.get("max_steps"):
+        it.max_steps = cfg["max_steps"]
     seqs = []
     for si, obs in enumerate(cfg["obs"]):
         seqs.append(Tup([Opaque("V", {"seq"}, {"seq": si}), Adt(EXTS, 0, [Int(8, False, bits=[TOP] * 8)], tags=frozenset({"caller-exts-%d" % si})),
@@ -306,7 +308,7 @@ def filter_tables(F, rep, rule="C05"):
         want_kmers = ((slices - 1) * 10 ** 9 + 15) // 16 + 1
         cfg = {"obs": [sweep_names], "size": 16, "report_all": True, "valid": {}, "flip": {o: False for o in sweep_names}, "lens": {0: want_kmers + 2},
                "stranded": False, "memory": 1, "cls": {o: i for i, o in enumerate(sweep_names)}, "bucket": list(range(256)),
-               "plain_bucket": {o: (i + 37) % 256 for i, o in enumerate(sweep_names)}}
+               "plain_bucket": {o: (i + 37) % 256 for i, o in enumerate(sweep_names)}, "max_steps": 400000 + 60000 * slices}
         rep.evaluations += 1
         try:
             h, out = run_filter(F, body, cfg)
